@@ -156,6 +156,62 @@ def final_sizes(ctx):
                 ctx.violation("EBCM_discrete: R(t+1) != R(t) + I(t)", rep)
         except Exception as e:
             ctx.violation("final-size relations: %s raised" % type(e).__name__, dict(rep, error=type(e).__name__ + ":" + str(e)[:80]))
+    # the same relations when the initial condition is given as node sets (the wrappers then compute Sk0, phiS0, phiR0
+    # from the graph), including structured cases where NO susceptible node has a susceptible neighbour (phiS0 = 0
+    # exactly: star with the centre infected, one side of a complete bipartite graph infected / recovered, a cycle whose
+    # susceptibles sit between infected and recovered nodes) or where every neighbour of a susceptible is recovered
+    for k in range(ctx.scale(10, 80)):
+        kind = ["star-centre", "bipartite-side", "bipartite-mixed", "cycle-alternating", "star-leaf", "random", "random+recs"][k % 7]
+        seed = ctx.rng.randrange(10 ** 6)
+        recs = []
+        if kind in ("star-centre", "star-leaf"):
+            m = ctx.rng.randint(4, 12)
+            G = nx.star_graph(m)
+            infs = [0] if kind == "star-centre" else [1]
+        elif kind.startswith("bipartite"):
+            a, b = ctx.rng.randint(2, 5), ctx.rng.randint(3, 9)
+            G = nx.complete_bipartite_graph(a, b)
+            side = list(range(a))
+            if kind == "bipartite-side":
+                infs = side
+            else:
+                cut = ctx.rng.randint(1, a - 1)
+                infs, recs = side[:cut], side[cut:]
+        elif kind == "cycle-alternating":
+            m = ctx.rng.randint(3, 8)
+            G = nx.cycle_graph(2 * m)
+            odd = list(range(1, 2 * m, 2))
+            infs, recs = odd[::2], odd[1::2]
+        else:
+            n = ctx.rng.randint(20, 40)
+            G = nx.gnp_random_graph(n, 5.0 / n, seed=seed)
+            nodes = list(G)
+            ctx.rng.shuffle(nodes)
+            infs = nodes[:ctx.rng.randint(1, 4)]
+            if kind == "random+recs":
+                recs = nodes[4:4 + ctx.rng.randint(1, 4)]
+        N = G.order()
+        tau, gamma = ctx.rng.choice([(0.6, 1.0), (1.0, 1.0), (2.0, 0.5)])
+        p = ctx.rng.choice([0.3, 0.5, 0.8])
+        rep = dict(entry="final-size", ic=kind, graph=dict(n=N, seed=seed, edges=[list(e) for e in G.edges()]), infs=infs, recs=recs, tau=tau, gamma=gamma, p=p)
+        ctx.case(rep, nontrivial=True)
+        ctx.count("final-size:" + kind)
+        kw = dict(initial_infecteds=infs)
+        if recs:
+            kw["initial_recovereds"] = recs
+        try:
+            A = EoN.Attack_rate_cts_time_from_graph(G, tau, gamma, number_its=600, **kw)
+            t, S, I, R = EoN.EBCM_from_graph(G, tau, gamma, tmax=200, tcount=4, **kw)
+            lim = (N - S[-1]) / N
+            if abs(A - lim) > 1e-5:
+                ctx.violation("Attack_rate_cts_time_from_graph (%.8f) differs from the t->inf limit of EBCM_from_graph (%.8f) for the same initial sets" % (A, lim), dict(rep, attack=A, ebcm=lim))
+            Ad = EoN.Attack_rate_discrete_from_graph(G, p, number_its=600, **kw)
+            td, Sd, Id, Rd = EoN.EBCM_discrete_from_graph(G, p, tmax=200, **kw)
+            limd = (N - Sd[-1]) / N
+            if abs(Ad - limd) > 1e-6:
+                ctx.violation("Attack_rate_discrete_from_graph (%.8f) differs from the limit of EBCM_discrete_from_graph (%.8f) for the same initial sets" % (Ad, limd), dict(rep, attack=Ad, ebcm=limd))
+        except Exception as e:
+            ctx.violation("final-size relations (initial sets): %s raised" % type(e).__name__, dict(rep, error=type(e).__name__ + ":" + str(e)[:80]))
 
 
 def limits(ctx):
